@@ -71,6 +71,11 @@ pub struct ProcPlan {
     /// (legal for `Write::write`, never done by Linux for blocking pipes; informational only).
     #[serde(default)]
     pub short_writes: bool,
+    /// Ticks between the moment the exiting child's pipe ends close (EOF / EPIPE visible to the
+    /// parent) and the moment it becomes waitable (`try_wait` sees the status). The kernel closes
+    /// the files of an exiting process before it notifies the parent, so the window is real.
+    #[serde(default)]
+    pub exit_lag: u64,
 }
 
 impl ProcPlan {
@@ -84,6 +89,7 @@ impl ProcPlan {
             op_cost: 1,
             parent_costs: vec![1],
             short_writes: false,
+            exit_lag: 0,
         }
     }
 }
@@ -128,6 +134,8 @@ pub struct ProcStats {
     pub short_writes: u64,
     pub hangs: u64,
     pub unreaped: u64,
+    pub try_wait_in_exit_window: u64,
+    pub parent_threads_max: u64,
     pub vticks: u64,
     pub bytes_to_child: u64,
     pub bytes_from_child: u64,
@@ -156,6 +164,8 @@ impl ProcStats {
         self.short_writes += o.short_writes;
         self.hangs += o.hangs;
         self.unreaped += o.unreaped;
+        self.try_wait_in_exit_window += o.try_wait_in_exit_window;
+        self.parent_threads_max = self.parent_threads_max.max(o.parent_threads_max);
         self.vticks += o.vticks;
         self.bytes_to_child += o.bytes_to_child;
         self.bytes_from_child += o.bytes_from_child;
@@ -176,6 +186,8 @@ impl ProcStats {
             "child_sigpipe": self.child_sigpipe, "child_exit_zero_empty": self.child_exit_zero_empty,
             "format_ok": self.format_ok, "format_failed": self.format_failed,
             "short_writes": self.short_writes, "hangs": self.hangs, "unreaped": self.unreaped,
+            "try_wait_in_exit_window": self.try_wait_in_exit_window,
+            "parent_threads_max": self.parent_threads_max,
             "virtual_ticks": self.vticks,
             "bytes_to_child": self.bytes_to_child, "bytes_from_child": self.bytes_from_child,
         })
@@ -223,6 +235,9 @@ struct SimProc {
     wrote_any: bool,
     fmt_failed: bool,
     status: Option<i32>,
+    waitable_at: u64,
+    generation: u64,
+    parent_threads: Vec<std::thread::ThreadId>,
     reaped: bool,
     handle_dropped: bool,
     hung: Option<&'static str>,
@@ -246,6 +261,7 @@ impl SimProc {
 
     fn exit_with(&mut self, raw: i32) {
         self.status = Some(raw);
+        self.waitable_at = self.now.saturating_add(self.plan.exit_lag);
         self.stdin.rd_open = false;
         self.stdin.buf.clear();
         self.stdout.wr_open = false;
@@ -281,6 +297,13 @@ impl SimProc {
                 self.pc += 1;
                 self.now = t;
                 self.ev('C', "delay", d as i64, 0);
+                true
+            }
+            Op::Read(_) | Op::ReadToEof if !self.stdin.rd_open => {
+                // reading a descriptor the child closed itself: EBADF, nothing arrives
+                self.now = t;
+                self.read_progress = 0;
+                self.pc += 1;
                 true
             }
             Op::Read(n) => {
@@ -474,6 +497,12 @@ impl SimProc {
             costs[(self.parent_calls as usize) % costs.len()]
         };
         self.parent_calls += 1;
+        self.generation += 1;
+        let me = std::thread::current().id();
+        if !self.parent_threads.contains(&me) {
+            self.parent_threads.push(me);
+            self.stats.parent_threads_max = self.parent_threads.len() as u64;
+        }
         self.stats.parent_ops += 1;
         self.now = self.now.saturating_add(cost);
         self.ev('P', what, a, 0);
@@ -492,20 +521,50 @@ impl SimProc {
 /// Handle shared by the `Child`, `ChildStdin`, `ChildStdout` objects of one spawn.
 pub struct SimChild {
     inner: Mutex<SimProc>,
+    /// Signalled by every parent op: a blocked op of another parent thread may be able to go on.
+    changed: std::sync::Condvar,
     /// Scheduling hook (C18): called on entry of every parent op, outside the lock.
     on_op: Option<Box<dyn Fn(&'static str) + Send + Sync>>,
 }
 
-fn raise_hang(p: &mut SimProc, what: &'static str) -> ! {
-    p.hung = Some(what);
-    p.stats.hangs += 1;
-    p.ev('S', what, 0, 0);
-    std::panic::panic_any(Sentinel::Hang(what))
-}
+/// How long a blocked parent op waits (real time) for another parent thread to change the
+/// state before the run is declared hung. Only reached when neither the calling thread nor the
+/// child can make progress, i.e. never on the paths of a single-threaded parent that terminates.
+const OTHER_THREAD_GRACE: std::time::Duration = std::time::Duration::from_millis(400);
 
 impl SimChild {
     fn lock(&self) -> std::sync::MutexGuard<'_, SimProc> {
         self.inner.lock().unwrap_or_else(|e| e.into_inner())
+    }
+
+    /// The calling parent thread and the child are both stuck. If another parent thread acts
+    /// within the grace period, retry; otherwise this is a hang (sentinel panic).
+    fn stuck<'a>(
+        &'a self,
+        mut p: std::sync::MutexGuard<'a, SimProc>,
+        what: &'static str,
+    ) -> std::sync::MutexGuard<'a, SimProc> {
+        let generation = p.generation;
+        let deadline = std::time::Instant::now() + OTHER_THREAD_GRACE;
+        loop {
+            let now = std::time::Instant::now();
+            if now >= deadline {
+                break;
+            }
+            let (guard, _) = self
+                .changed
+                .wait_timeout(p, deadline - now)
+                .unwrap_or_else(|e| e.into_inner());
+            p = guard;
+            if p.generation != generation {
+                return p;
+            }
+        }
+        p.hung = Some(what);
+        p.stats.hangs += 1;
+        p.ev('S', what, 0, 0);
+        drop(p);
+        std::panic::panic_any(Sentinel::Hang(what))
     }
 
     fn hook(&self, site: &'static str) {
@@ -553,6 +612,7 @@ impl ChildIo for SimChild {
         }
         let mut p = self.lock();
         p.parent_tick("write", buf.len() as i64);
+        self.changed.notify_all();
         if p.parent_calls > PARENT_OP_CAP {
             drop(p);
             std::panic::panic_any(Sentinel::StepCap);
@@ -596,7 +656,7 @@ impl ChildIo for SimChild {
                 if p.status.is_some() {
                     continue; // reader is gone now: reported at the top of the loop
                 }
-                raise_hang(&mut p, "hang:parent_write_stdin_full_child_blocked");
+                p = self.stuck(p, "hang:parent_write_stdin_full_child_blocked");
             }
         }
     }
@@ -609,6 +669,7 @@ impl ChildIo for SimChild {
         self.hook("seam:read");
         let mut p = self.lock();
         p.parent_tick("read", buf.len() as i64);
+        self.changed.notify_all();
         if p.parent_calls > PARENT_OP_CAP {
             drop(p);
             std::panic::panic_any(Sentinel::StepCap);
@@ -633,7 +694,7 @@ impl ChildIo for SimChild {
                 }
                 p.stats.parent_blocked_on_empty_stdout += 1;
                 if !p.advance_child() {
-                    raise_hang(&mut p, "hang:parent_read_stdout_child_blocked");
+                    p = self.stuck(p, "hang:parent_read_stdout_child_blocked");
                 }
             },
             Fd::Stderr => loop {
@@ -642,7 +703,7 @@ impl ChildIo for SimChild {
                     return Ok(0);
                 }
                 if !p.advance_child() {
-                    raise_hang(&mut p, "hang:parent_read_stderr_child_blocked");
+                    p = self.stuck(p, "hang:parent_read_stderr_child_blocked");
                 }
             },
         }
@@ -652,6 +713,8 @@ impl ChildIo for SimChild {
         // No scheduling point: this runs from Drop, possibly while unwinding.
         let mut p = self.lock();
         p.run_due();
+        p.generation += 1;
+        self.changed.notify_all();
         match fd {
             Fd::Stdin => {
                 if p.stdin.wr_open {
@@ -674,15 +737,17 @@ impl ChildIo for SimChild {
         self.hook("seam:wait");
         let mut p = self.lock();
         p.parent_tick("wait", 0);
+        self.changed.notify_all();
         loop {
             if let Some(raw) = p.status {
+                p.now = p.now.max(p.waitable_at);
                 p.reaped = true;
                 p.ev('P', "reaped", raw as i64, 0);
                 return Ok(ExitStatus::from_raw(raw));
             }
             p.stats.parent_blocked_in_wait += 1;
             if !p.advance_child() {
-                raise_hang(&mut p, "hang:parent_wait_child_blocked");
+                p = self.stuck(p, "hang:parent_wait_child_blocked");
             }
         }
     }
@@ -691,14 +756,22 @@ impl ChildIo for SimChild {
         self.hook("seam:try_wait");
         let mut p = self.lock();
         p.parent_tick("try_wait", 0);
+        self.changed.notify_all();
         if p.parent_calls > PARENT_OP_CAP {
             drop(p);
             std::panic::panic_any(Sentinel::StepCap);
         }
         match p.status {
-            Some(raw) => {
+            Some(raw) if p.now >= p.waitable_at => {
                 p.reaped = true;
+                p.ev('P', "try_wait_reaped", raw as i64, 0);
                 Ok(Some(ExitStatus::from_raw(raw)))
+            }
+            Some(_) => {
+                // pipe ends are closed already, but the child is not waitable yet
+                p.stats.try_wait_in_exit_window += 1;
+                p.ev('P', "try_wait_in_exit_window", 0, 0);
+                Ok(None)
             }
             None => Ok(None),
         }
@@ -708,6 +781,7 @@ impl ChildIo for SimChild {
         self.hook("seam:kill");
         let mut p = self.lock();
         p.parent_tick("kill", 0);
+        self.changed.notify_all();
         if p.status.is_none() {
             p.exit_with(libc::SIGKILL);
         }
@@ -777,6 +851,9 @@ pub fn spawn(
         wrote_any: false,
         fmt_failed: false,
         status: None,
+        waitable_at: 0,
+        generation: 0,
+        parent_threads: Vec::new(),
         reaped: false,
         handle_dropped: false,
         hung: None,
@@ -788,6 +865,7 @@ pub fn spawn(
     };
     Ok(Arc::new(SimChild {
         inner: Mutex::new(proc),
+        changed: std::sync::Condvar::new(),
         on_op,
     }))
 }
